@@ -269,9 +269,25 @@ func (j *textJudge) roundTrip(b ref.Bits, n ref.Num, text, producer string, mk f
 }
 
 func runC06(c *Ctx) {
-	c.Parallel("grid", ref.NearestEven, func(sh *mon.Shard, r *gen.RNG) {
+	// The produced text denotes d exactly, so reading it back must give d whatever DefaultRoundingMode is: the
+	// whole workload is spread over the six default modes (a spurious sticky flag in the reader is invisible under
+	// the nearest modes and shows as one unit under the directed ones - seed C06-parse-dropped-zero-digit-sets-sticky).
+	for def := ref.Mode(0); def < ref.NumModes; def++ {
+		runC06Def(c, def)
+	}
+	c.Col.Res.Targets = append(c.Col.Res.Targets,
+		mon.Target{Prefix: "grid/", Total: 630, Min: 628},
+		mon.Target{Prefix: "switchover/", Total: 14, Min: 14},
+		mon.Target{Prefix: "form/", Total: 2, Min: 2},
+		mon.Target{Prefix: "readback-default-mode/", Total: 6, Min: 6},
+	)
+}
+
+func runC06Def(c *Ctx, def ref.Mode) {
+	c.Parallel("grid", def, func(sh *mon.Shard, r *gen.RNG) {
 		j := &textJudge{ctx: c, sh: sh}
-		reps := c.N(6, 80)
+		sh.Cell(fmt.Sprintf("readback-default-mode/%d", def))
+		reps := (c.N(6, 80) + 5) / 6
 		idx := 0
 		for rep := 0; rep < reps; rep++ {
 			for nd := 1; nd <= 35; nd++ {
@@ -321,7 +337,7 @@ func runC06(c *Ctx) {
 			}
 		}
 	})
-	c.Parallel("mixed", ref.NearestEven, func(sh *mon.Shard, r *gen.RNG) {
+	c.Parallel("mixed", def, func(sh *mon.Shard, r *gen.RNG) {
 		j := &textJudge{ctx: c, sh: sh}
 		// deterministic: d*10^k (d = 1..9, every k that fits) at the largest and the smallest exponent, both signs -
 		// the largest/smallest powers of ten and their cohorts (10^6145 = 10^34 e6111 ... 1e-6176)
@@ -342,7 +358,7 @@ func runC06(c *Ctx) {
 				}
 			}
 		}
-		n := c.N(12000, 150000)
+		n := c.N(12000, 150000) / 6
 		for i := 0; i < n; i++ {
 			switch i % 4 {
 			case 0:
@@ -354,11 +370,6 @@ func runC06(c *Ctx) {
 			}
 		}
 	})
-	c.Col.Res.Targets = append(c.Col.Res.Targets,
-		mon.Target{Prefix: "grid/", Total: 630, Min: 628},
-		mon.Target{Prefix: "switchover/", Total: 14, Min: 14},
-		mon.Target{Prefix: "form/", Total: 2, Min: 2},
-	)
 }
 
 func replayC06(c *Ctx, sh *mon.Shard, cs *mon.Case) {
